@@ -252,7 +252,7 @@ def slot_class(cls):
         return "text"
     if cls == "pseudo":
         return "text"
-    if cls in ("j9p", "j9p-num", "j9p-hex", "c9", "j9mix", "j9p-l1"):
+    if cls in ("j9p", "j9p-num", "j9p-hex", "c9", "j9mix", "j9p-l1", "j9raw"):
         return "j9"
     if cls.startswith("md5"):
         return "md5"
